@@ -347,6 +347,22 @@ pub fn random_behaviour(r: &mut Rng, t: &mut Trace, steps: usize) {
             t.run(&mut w, op);
         }
     }
+    // a provision far larger than the reserves and 50% off their ratio, with a 1% tolerance, must be refused by the guard
+    // whatever else is attached (two native deposits at once; an unrelated extra coin next to the deposit)
+    for i in 0..np {
+        let (a0, a1) = pair_infos(&w, i);
+        let paddr = w.pairs[i].addr.clone();
+        let (r0, r1) = (balance(&w, &a0, &paddr), balance(&w, &a1, &paddr));
+        if r0 == 0 || r1 == 0 || r0 > (1u128 << 110) || r1 > (1u128 << 110) || !(is_native(&a0) || is_native(&a1)) { continue; }
+        let mut op = op_provide(&w, i, "bob", r0.saturating_mul(40), r1.saturating_mul(60), st(D18 / 100), nul());
+        if !(is_native(&a0) && is_native(&a1)) {
+            let mut f: Vec<Value> = op["funds"].as_array().unwrap().clone();
+            f.push(json!(["uc", st(1)]));
+            f.sort_by(|x, y| x[0].as_str().unwrap().cmp(y[0].as_str().unwrap()));
+            op["funds"] = Value::Array(f);
+        }
+        t.run(&mut w, op);
+    }
     // one more pair created inside the observed history, with an explicit commission rate (zero every other time):
     // the rate a creator asks for is the rate the pair charges
     {
